@@ -58,7 +58,7 @@ type SpecFunc struct {
 	Text   string
 }
 
-var kwRe = regexp.MustCompile(`^(func|spec|requires|ensures|decreases|loop|safe|modular|terminates|witness|unordered|end)\b`)
+var kwRe = regexp.MustCompile(`^(func|spec|requires|ensures|decreases|loop|safe|modular|terminates|witness|witnessgo|unordered|end)\b`)
 
 func (e *Engine) loadContracts() error {
 	e.contracts = map[string]*Contract{}
@@ -206,6 +206,13 @@ func (e *Engine) parseContractFile(file, pkgPath, data string) error {
 				cur.LoopDecr[n] = c
 			} else {
 				return fmt.Errorf("%s:%d: bad loop clause %q", file, l.line, kind)
+			}
+		case "witnessgo":
+			// witnessgo <obligation-suffix> <Go statements>: body of an in-package test that sets
+			// `violated = true` when the real code shows the violation (a replay aid, never evidence)
+			parts := strings.SplitN(rest, " ", 2)
+			if len(parts) == 2 {
+				cur.Witness[parts[0]+"|go"] = parts[1]
 			}
 		case "unordered":
 			// unordered <map-range ordinal> <entry point>: the property allows an unordered result there
